@@ -27,8 +27,11 @@ RULE = ("A: random command lines: sub-command, file names (+ rarely the deprecat
         "values from per-type pools (floats incl. negative/exponent/inf/nan, ints, strings, method choices valid "
         "and invalid, 16 boolean spellings valid and invalid), options repeated, options before or after the "
         "file names; B: every single option x value, every pair of options for each method, random larger "
-        "subsets, on small simulated tree sequences (date) and tree sequences with flanks, gaps and disjoint "
-        "nodes (preprocess); non-trivial = at least one option given; distinct by content hash")
+        "subsets (falsy values 0 / 0.0 of --rescaling-intervals, --max-iterations, --num-threads included), on "
+        "small simulated tree sequences (date) and tree sequences with flanks, gaps and disjoint nodes "
+        "(preprocess), ~40% of them with gen.exotic decorations (extra flag bits, all nodes renumbered, mutations "
+        "above roots, mutation-free sites, unknown mutation times, arbitrary allele states, populations); "
+        "non-trivial = at least one option given; distinct by content hash")
 ASSUME = ["argparse features outside the model are not generated: abbreviated long options, --opt=value, "
           "clustered short flags, non-contiguous positionals, malformed numeric literals, -h",
           "the documented option -> API keyword mapping written in tools/props/c34.py (DATE_MAP, PRE_MAP)",
@@ -392,7 +395,18 @@ def date_input(rng):
                                   random_seed=seed, population_size=1)
         ts = msprime.sim_mutations(ts, rate=0.08, random_seed=seed)
         if ts.num_trees > 1 and ts.num_mutations > 5:
-            return ts
+            break
+    return exotic(rng, ts)
+
+
+def exotic(rng, ts):
+    """gen.exotic decorations on ~40% of the inputs (CLI and API read the same file, so every kind applies)"""
+    from vlib import gen
+    if rng.random() < 0.4:
+        try:
+            ts, _kinds = gen.exotic(rng, ts, p=0.35)
+        except Exception:   # noqa: BLE001
+            pass
     return ts
 
 
@@ -417,6 +431,7 @@ def preprocess_input(rng, scale=None):
         ts = tables.tree_sequence()
         if ts.num_sites >= 5 and ts.num_trees >= 3:
             break
+    ts = exotic(rng, ts)
     if scale:
         tables = ts.dump_tables()
         tables.sequence_length = ts.sequence_length * scale
@@ -528,10 +543,10 @@ DATE_VALUES = {
     "recombination_rate": ["1e-8"],
     "eps": ["1e-6", "1e-3"],
     "min_branch_length": ["1e-6", "0.01", "0.5"],
-    "rescaling_intervals": ["2", "5", "0"],
-    "max_iterations": ["1", "3"],
+    "rescaling_intervals": ["2", "5", "0"],          # 0 is falsy: must still reach the API as 0
+    "max_iterations": ["1", "3", "0"],               # 0: the API raises ValueError, so must the command
+    "num_threads": ["1", "0"],
     "population_size": ["1", "100", "0.5"],
-    "num_threads": ["1"],
     "probability_space": ["linear", "logarithmic", "foo"],
 }
 PRE_VALUES = {
